@@ -178,7 +178,7 @@ func runE6(t *testing.T, prof e6Profile) {
 
 // (a snapshot whose content is not the state at the index it is stamped with makes
 // acknowledged writes disappear or come back after a restart from it)
-var famE6C01 = set("linearizability-violated", "write-applied-twice", "replicas-applied-different-entries", "snapshot-content-not-at-snapshot-index")
+var famE6C01 = set("linearizability-violated", "write-applied-twice", "replicas-applied-different-entries", "snapshot-content-not-at-snapshot-index", "installed-snapshot-content-not-at-snapshot-index")
 var famE6C04 = set("term-not-durable", "vote-not-durable", "ack-not-durable", "commit-advertised-before-durable",
 	"two-votes-one-term", "recovered-term-lower", "restart-failed", "restart-panics-commit-outside-log-range", "linearizability-violated", "completed-request-never-applied")
 var famE6C11 = set("call-after-close", "exclusive-calls-overlap", "update-index-not-increasing", "ondisk-update-at-or-below-open-index",
@@ -188,7 +188,7 @@ var famE6C11 = set("call-after-close", "exclusive-calls-overlap", "update-index-
 var famE6C12 = set("completed-with-foreign-result", "dropped-request-applied", "completed-request-never-applied", "no-terminal-result", "two-results")
 
 var famE6C02 = set("replicas-applied-different-entries", "update-index-not-increasing", "write-applied-twice",
-	"replica-state-differs-at-same-index", "ondisk-update-at-or-below-open-index", "snapshot-content-not-at-snapshot-index")
+	"replica-state-differs-at-same-index", "ondisk-update-at-or-below-open-index", "snapshot-content-not-at-snapshot-index", "installed-snapshot-content-not-at-snapshot-index")
 var famE6C06 = set("stale-read", "read-returned-unapplied-value", "linearizability-violated", "read-no-terminal-result")
 
 // C02 end to end: the Update streams and the final user state of real replicas
@@ -225,7 +225,7 @@ func TestVF_C02_Cluster(t *testing.T) {
 }
 
 var famE6C08 = set("log-compacted-beyond-durable-snapshot", "restart-failed", "restart-panics-commit-outside-log-range",
-	"replica-state-differs-at-same-index", "snapshot-content-not-at-snapshot-index", "update-index-not-increasing",
+	"replica-state-differs-at-same-index", "snapshot-content-not-at-snapshot-index", "installed-snapshot-content-not-at-snapshot-index", "update-index-not-increasing",
 	"ondisk-update-at-or-below-open-index", "replicas-applied-different-entries", "completed-request-never-applied")
 
 // C08 end to end: snapshots taken while entries keep being applied (concurrent and
